@@ -378,7 +378,7 @@ func genRawStream(rt *rapid.T) rawStreamCase {
 	case 1:
 		data = append(data, rapid.SliceOfN(rapid.Byte(), 0, 20).Draw(rt, "junk")...)
 	}
-	return rawStreamCase{Data: data, Msize: rapid.SampledFrom([]uint32{c02Msize, 4096, 256, 4 << 20, 7, 8}).Draw(rt, "msize")}
+	return rawStreamCase{Data: data, Msize: rapid.SampledFrom([]uint32{c02Msize, 4096, 256, 4 << 20, 7, 8, 4<<20 + 1, 8 << 20, 1<<32 - 1}).Draw(rt, "msize")}
 }
 
 var fuzzRun *evid.Run
@@ -670,6 +670,18 @@ func TestC02(t *testing.T) {
 			}
 		}
 		h.Exhaustive("every registered type truncated at every offset (stream end / consistent size field)")
+		// the 4 MiB ceiling holds whatever limit the receiver was configured with
+		for _, ms := range []uint32{4 << 20, 4<<20 + 1, 8 << 20, 1<<32 - 1} {
+			for _, sz := range []uint32{4<<20 - 1, 4 << 20, 4<<20 + 1, 8 << 20, 1<<32 - 1} {
+				g := append(refcodec.Encode(tClunk(1))[:7:7], make([]byte, 300)...)
+				setSize(g, sz)
+				f := checkStream(g, ms)
+				h.Case(evid.Hash64([]byte("ceiling"), u32b(ms, sz)), true, "size-ceiling")
+				if h.report("stream", f, rawStreamCase{g, ms}) {
+					return
+				}
+			}
+		}
 		// bounded buffering
 		for _, sz := range []uint32{0, 6, 7, 4096, 4<<20 - 1, 4 << 20, 4<<20 + 1, 1 << 31, 1<<32 - 1} {
 			for _, ms := range []uint32{8192, 4 << 20, 1<<32 - 1} {
